@@ -399,18 +399,18 @@ def check_env(c, sh, env, what):
     # server-defined variables appear at most once (a client field can never add or replace one)
     for m in META:
         if len(d.get(m.encode(), [])) > 1:
-            return "%s: server-defined variable %s appears %d times" % (what, m, len(d[m.encode()]))
+            return "%s: server-defined variable %s appears more than once" % (what, m)
     for k in names:
         if not re.match(rb"^[A-Z0-9_]+$", k):
-            return "%s: variable name %r is not [A-Z0-9_]+" % (what, k[:40])
+            return "%s: variable name is not [A-Z0-9_]+ || %r" % (what, k[:40])
     # request line
     tgt, rawpath, rawq = raw_pathquery(sh["target"])
     if not (c.fl & F_H2EXT):
         if d.get(b"REQUEST_METHOD") != [sh["method"]]:
-            return "%s: REQUEST_METHOD %r for method %r" % (what, d.get(b"REQUEST_METHOD"), sh["method"])
+            return "%s: REQUEST_METHOD is not the request method || %r for %r" % (what, d.get(b"REQUEST_METHOD"), sh["method"])
         proto = b"HTTP/2.0" if c.fl & F_H2 else b"HTTP/1.%d" % sh["minor"]
         if d.get(b"SERVER_PROTOCOL") != [proto]:
-            return "%s: SERVER_PROTOCOL %r, request was %r" % (what, d.get(b"SERVER_PROTOCOL"), proto)
+            return "%s: SERVER_PROTOCOL is not the request version || %r for %r" % (what, d.get(b"SERVER_PROTOCOL"), proto)
     special = sh["method"] == b"CONNECT" or sh["target"] == b"*"
     if not special:
         qs = d.get(b"QUERY_STRING")
@@ -418,7 +418,7 @@ def check_env(c, sh, env, what):
             return "%s: QUERY_STRING missing" % what
         exp_q = unq(rawq).replace(b"+", b" ")
         if unq(qs[0]).replace(b"+", b" ") != exp_q:
-            return "%s: QUERY_STRING %r is not the request-target after the first '?' (%r)" % (what, qs[0][:80], rawq[:80])
+            return "%s: QUERY_STRING is not the request-target after the first '?' || %r for %r" % (what, qs[0][:80], rawq[:80])
         # REQUEST_URI: the target as received (minus the configured prefix)
         ru = d.get(b"REQUEST_URI", [None])[0]
         full = sh["target"]
@@ -429,7 +429,7 @@ def check_env(c, sh, env, what):
         if c.strip and full.startswith(c.strip) and full[len(c.strip):len(c.strip) + 1] == b"/" and c.op in ("env", "fcgi"):
             exp = [full[len(c.strip):]]
         if ru not in exp:
-            return "%s: REQUEST_URI %r, request-target %r" % (what, (ru or b"")[:80], full[:80])
+            return "%s: REQUEST_URI is not the request-target || %r for %r" % (what, (ru or b"")[:80], full[:80])
         if not authorizer:
             sn = d.get(b"SCRIPT_NAME", [None])[0]
             pi = d.get(b"PATH_INFO", [b""])[0]
@@ -438,21 +438,21 @@ def check_env(c, sh, env, what):
             if SAFE_PATH.match(rawpath) and b"/./" not in rawpath and b"/../" not in rawpath \
                     and not rawpath.endswith((b"/.", b"/..")) and b"//" not in rawpath:
                 if sn + pi != rawpath:
-                    return "%s: SCRIPT_NAME %r ++ PATH_INFO %r is not the request path %r" % (what, sn[:60], pi[:60], rawpath[:60])
+                    return "%s: SCRIPT_NAME ++ PATH_INFO is not the request path || %r ++ %r for %r" % (what, sn[:60], pi[:60], rawpath[:60])
             elif b"?" in sn + pi and b"%3f" not in rawpath.lower():
-                return "%s: '?' in SCRIPT_NAME/PATH_INFO %r" % (what, (sn + pi)[:80])
+                return "%s: '?' in SCRIPT_NAME/PATH_INFO || %r" % (what, (sn + pi)[:80])
             if pi and not pi.startswith(b"/"):
-                return "%s: PATH_INFO %r does not start with '/'" % (what, pi[:60])
+                return "%s: PATH_INFO does not start with '/' || %r" % (what, pi[:60])
     # connection / configuration
     if d.get(b"REMOTE_ADDR") != [c.raddr] or d.get(b"REMOTE_PORT") != [b"%d" % c.rport]:
-        return "%s: REMOTE_ADDR/REMOTE_PORT %r %r" % (what, d.get(b"REMOTE_ADDR"), d.get(b"REMOTE_PORT"))
+        return "%s: REMOTE_ADDR/REMOTE_PORT are not the peer's || %r %r" % (what, d.get(b"REMOTE_ADDR"), d.get(b"REMOTE_PORT"))
     if d.get(b"GATEWAY_INTERFACE") != [b"CGI/1.1"]:
-        return "%s: GATEWAY_INTERFACE %r" % (what, d.get(b"GATEWAY_INTERFACE"))
+        return "%s: GATEWAY_INTERFACE is not CGI/1.1 || %r" % (what, d.get(b"GATEWAY_INTERFACE"))
     https = bool(c.fl & F_HTTPS)
     if d.get(b"REQUEST_SCHEME") != [b"https" if https else b"http"] or ((b"HTTPS" in d) != https):
         return "%s: REQUEST_SCHEME/HTTPS do not match the connection" % what
     if c.colon < len(c.srvtok) and d.get(b"SERVER_PORT") != [c.srvtok[c.colon + 1:]]:
-        return "%s: SERVER_PORT %r for socket %r" % (what, d.get(b"SERVER_PORT"), c.srvtok)
+        return "%s: SERVER_PORT is not the listening port || %r for %r" % (what, d.get(b"SERVER_PORT"), c.srvtok)
     # body length
     if not authorizer:
         delivered, fixed, _ = schedule(c) if c.op in STREAM_OPS else (0, None, False)
@@ -462,7 +462,7 @@ def check_env(c, sh, env, what):
         if cl is None or len(cl) != 1:
             return "%s: CONTENT_LENGTH missing" % what
         if want is not None and cl != [b"%d" % want]:
-            return "%s: CONTENT_LENGTH %r, request body length %d" % (what, cl, want)
+            return "%s: CONTENT_LENGTH is not the request body length || %r for %d" % (what, cl, want)
         if c.op == "scgi" and names[0] != b"CONTENT_LENGTH":
             return "%s: CONTENT_LENGTH is not the first SCGI header" % what
     elif b"CONTENT_LENGTH" in d:
@@ -498,10 +498,10 @@ def check_env(c, sh, env, what):
     if gm != em:
         extra = [x for x in gm if x not in em]
         miss = [x for x in em if x not in gm]
-        return "%s: client fields not passed one-to-one: unexpected %r missing %r" % (what, extra[:3], miss[:3])
+        return "%s: client fields not passed one-to-one || unexpected %r missing %r" % (what, extra[:3], miss[:3])
     for k, v in got:
         if k in optional and k != b"HTTP_HOST" and (k, v) not in exp:
-            return "%s: %s has value %r not sent by the client" % (what, k.decode(), v[:60])
+            return "%s: hop-by-hop variable has a value not sent by the client || %s %r" % (what, k.decode(), v[:60])
     return None
 
 
@@ -518,10 +518,10 @@ def check_body(c, sh, body, closed, what, framed):
     if length == 0 and decl is not None and fixed is None:
         delivered = 0           # nothing is read from the client for a bodiless request
     if body != src[:delivered][:len(body)] or len(body) > delivered:
-        return "%s: body bytes differ from the client's at offset %d" % (
+        return "%s: body bytes differ from the client's || at offset %d" % (
             what, next((i for i in range(min(len(body), delivered)) if body[i] != src[i]), min(len(body), delivered)))
     if len(body) != delivered:
-        return "%s: %d of %d received body bytes were passed on" % (what, len(body), delivered)
+        return "%s: not all received body bytes were passed on || %d of %d" % (what, len(body), delivered)
     if framed:
         complete = (length is not None and delivered == length) or (length is None and done)
         upgrade = bool(c.fl & F_UPGRADE) and (bool(c.fl & F_H2EXT) or
@@ -529,7 +529,7 @@ def check_body(c, sh, body, closed, what, framed):
         if complete and not closed and not upgrade:
             return "%s: body complete but the stream is not terminated" % what
         if closed and not complete:
-            return "%s: stream terminated after %d of %s body bytes" % (what, delivered, length)
+            return "%s: stream terminated before the body was complete || %d of %s" % (what, delivered, length)
     return None
 
 
@@ -541,7 +541,7 @@ def parse_obs(out):
     return p, r
 
 
-def oracle(line, out):
+def oracle_full(line, out):
     if line.startswith(("target ", "norm ")):
         return oracle_url(line, out)
     if out == "<crash>" or out == "bad-op":
@@ -570,12 +570,12 @@ def oracle(line, out):
             m = re.match(r"ok reqlen=(-?\d+) in=(\d+) pend=(\d+) out=(\S+)$", res)
             stream = C.unhx(m.group(4))
             if int(m.group(2)) != len(stream):
-                return "%s: %s bytes queued but %d bytes drained" % (c.op, m.group(2), len(stream))
+                return "%s: bytes queued and bytes drained differ || %s %d" % (c.op, m.group(2), len(stream))
             if c.op == "fcgi":
                 dd = fcgi_decode(stream)
                 want_role = 2 if c.fl & F_AUTH else 1
                 if dd["role"] != want_role or dd["flags"] != 0:
-                    return "fcgi: role %d flags %d" % (dd["role"], dd["flags"])
+                    return "fcgi: wrong role / flags in BEGIN_REQUEST || %d %d" % (dd["role"], dd["flags"])
                 return check_env(c, sh, dd["env"], "fcgi") or check_body(c, sh, dd["body"], dd["closed"], "fcgi", True)
             if c.op == "scgi":
                 dd = scgi_decode(stream)
@@ -588,8 +588,14 @@ def oracle(line, out):
             if c.op == "proxy":
                 return check_proxy(c, sh, http_decode(stream))
     except Bad as e:
-        return "%s: malformed backend message: %s" % (c.op, e)
+        return "%s: malformed backend message || %s" % (c.op, e)
     return None
+
+
+def oracle(line, out):
+    """violation class only (one report per class); replay prints the details"""
+    v = oracle_full(line, out)
+    return v.split(" || ")[0] if v else None
 
 
 HOP = (b"connection", b"proxy-connection", b"transfer-encoding", b"proxy", b"keep-alive-x")
@@ -601,7 +607,7 @@ def check_proxy(c, sh, req):
         if req["method"] != b"GET":
             return "proxy: extended CONNECT not translated to GET"
     elif req["method"] != sh["method"]:
-        return "proxy: method %r forwarded as %r" % (sh["method"], req["method"])
+        return "proxy: method not forwarded unchanged || %r as %r" % (sh["method"], req["method"])
     tgt, rawpath, rawq = raw_pathquery(sh["target"])
     if b"?" in req["target"]:
         fq = req["target"].split(b"?", 1)[1]
@@ -609,7 +615,7 @@ def check_proxy(c, sh, req):
         fq = b""
     if sh["method"] != b"CONNECT" and sh["target"] != b"*" and \
             unq(fq).replace(b"+", b" ") != unq(rawq).replace(b"+", b" "):
-        return "proxy: query %r forwarded as %r" % (rawq[:60], fq[:60])
+        return "proxy: query not forwarded unchanged || %r as %r" % (rawq[:60], fq[:60])
     hd = {}
     for k, v in req["headers"]:
         hd.setdefault(k.lower(), []).append(v)
@@ -618,9 +624,9 @@ def check_proxy(c, sh, req):
             return "proxy: %s forwarded to the backend" % k.decode()
     conn = hd.get(b"connection")
     if conn is None or len(conn) != 1 or not re.match(rb"^close(, te)?(, upgrade)?$", conn[0]):
-        return "proxy: Connection field forwarded as %r" % conn
+        return "proxy: Connection field is not 'close[, te][, upgrade]' || %r" % conn
     if b"te" in hd and hd[b"te"] != [b"trailers"] and [v.lower() for v in hd[b"te"]] != [b"trailers"]:
-        return "proxy: TE %r forwarded" % hd[b"te"]
+        return "proxy: TE other than trailers forwarded || %r" % hd[b"te"]
     if b", te" in conn[0] and b"te" not in hd:
         return "proxy: Connection: te without TE field"
     if len(hd.get(b"host", [])) > 1 or len(hd.get(b"content-length", [])) > 1:
@@ -650,7 +656,7 @@ def check_proxy(c, sh, req):
             else:
                 cl = hd.get(b"content-length")
                 if (length > 0 or sh["method"] not in (b"GET", b"HEAD")) and cl != [b"%d" % length]:
-                    return "proxy: Content-Length %r for a %d byte body" % (cl, length)
+                    return "proxy: Content-Length is not the body length || %r for %d" % (cl, length)
                 v = check_body(c, sh, req["body"], None, what, False)
                 if v:
                     return v
@@ -662,14 +668,14 @@ def check_proxy(c, sh, req):
         if k.lower() in skip:
             continue
         if hd.get(k.lower()) != [v]:
-            return "proxy: field %r: %r forwarded as %r" % (k, v[:60], hd.get(k.lower()))
+            return "proxy: end-to-end field not forwarded unchanged || %r: %r as %r" % (k, v[:60], hd.get(k.lower()))
     for k in hd:
         if k not in skip and k not in (b"sec-websocket-key",) and \
                 k not in [kk.lower() for kk, _ in sh["fields"]]:
-            return "proxy: field %r not sent by the client" % k
+            return "proxy: field forwarded that the client did not send || %r" % k
     xff = hd.get(b"x-forwarded-for", [b""])[0]
     if not xff.endswith(c.raddr):
-        return "proxy: X-Forwarded-For %r does not end with the peer address" % xff[:60]
+        return "proxy: X-Forwarded-For does not end with the peer address || %r" % xff[:60]
     return None
 
 
@@ -685,7 +691,7 @@ def oracle_url(line, out):
     _, rawpath, rawq = raw_pathquery(raw)
     q = C.unhx(o[3])
     if unq(q).replace(b"+", b" ") != unq(rawq).replace(b"+", b" "):
-        return "http_request_parse_target: query %r is not the request-target after the first '?' (%r)" % (q[:60], rawq[:60])
+        return "http_request_parse_target: query is not the request-target after the first '?' || %r for %r" % (q[:60], rawq[:60])
     return None
 
 
@@ -1003,7 +1009,7 @@ def replay_line(ctx, rep):
     print("input:", line[:2000])
     print("impl :", [x[:2000] for x in o], rc)
     print("model:", [x[:2000] for x in m])
-    v = oracle(line, o[0]) if o else "crash"
+    v = oracle_full(line, o[0]) if o else "crash"
     print("oracle:", v)
     if v or (o != m):
         print("VIOLATION property=%s replay=(replayed)" % ctx.pid)
